@@ -31,6 +31,28 @@ Space  : the correlation family K of DESIGN.md section 4 (table size x spacing
          of length 1 over the 142 pieces,
          ALL histories of length 2 (thorough: also 3) over a 22-piece
          sub-alphabet, every history on one live object.
+         Fifth wave (alphabets and models in domains/w5_c05.py) -
+         family D: the data of a live correlation are EDITED: object built
+         by ThermochemIncomplete / ThermochemGroup on the non-polynomial
+         table (N and T_ref placements per ND, wide range, both reference
+         values); letters del_ND_Cp(T) for the points with index 0, 1, N//2,
+         N-1, del_ND_Cp() (last step only), del_ND_H_ref(), del_ND_S_ref(),
+         set_range(wider), update() with a new point above / inside the
+         table, update() with a contradicting value at the first knot (a new
+         point once that knot was deleted); ALL applicable histories of 1..2
+         letters (thorough: 1..3 on the pairs of DL3) x probes {nothing
+         evaluated before the last step, evaluated before and after every
+         step}.
+         family V: update() with a piece stated at ANOTHER reference
+         temperature: receiver holding the first N0 points of the 3-point
+         non-polynomial table (N0 = 0: no table), T_ref placements per NV,
+         reference values (H,S)/(H,-)/(-,S)/(-,-); piece = 7 Cp parts (none,
+         new point above / below / inside, value at the first knot, the
+         whole 3-point table, table + point above) x H {none, 40.0} x S
+         {none, -55.0} x overwrite {False, True}, less the two that bring
+         nothing = 54, x every placement of the piece's T_ref per VB that
+         differs from the receiver's; ALL histories of length 1 (thorough:
+         also ALL of length 2 over a 22-piece sub-alphabet x 3 placements).
 Oracle : knots reproduced; reference values returned at T_ref; T*H/RT and S/R
          differences equal the integrals of the correlation's own Cp/R (held at
          the end values outside the table) computed by an independent
@@ -52,6 +74,26 @@ Oracle : knots reproduced; reference values returned at T_ref; T*H/RT and S/R
          absent), agrees to 1e-12 with the object the constructor makes from
          the model's data on every knot / piece temperature / range end, and
          a copy() taken before the history still lists the initial data.
+         Family D: a dictionary model says what is left after each edit
+         (and which re-added point is refused); after every step the
+         object's account of its data must equal the model; whenever the
+         object is probed: every listed and every remaining point is
+         reproduced, Cp/R outside the CURRENT span equals the CURRENT end
+         value, the reference values still held are returned at T_ref, G =
+         H - S, and the object agrees to 1e-12 with the constructor object
+         made from the remaining data and with its own copy(); after the
+         last step also the integral relations (judge_correlation /
+         judge_partial with the remaining data).
+         Family V: the model keeps, per reference value, WHERE it was stated
+         (receiver's T_ref or the accepted piece's T_ref) and says which
+         pieces are refused.  After every step the account (table, presence
+         of the reference values, their values when stated at the
+         receiver's T_ref, T_ref and range unchanged, piece unchanged); after
+         the history the clauses above against the MERGED table, and the
+         integral relations anchored where the value was stated: H/RT and
+         S/R AT THE PIECE's T_ref equal the piece's values, and from there
+         the changes of T*H/RT and S/R equal the integrals of the object's
+         own Cp/R over the merged table.
 """
 import itertools
 import json
@@ -62,6 +104,7 @@ from ..models import thermoref as tr
 from ..domains import libs
 from ..domains import w3_c05 as w3
 from ..domains import w4_c05 as w4
+from ..domains import w5_c05 as w5
 
 LEVEL = 'exploration'
 # scipy quad over a piecewise-cubic integrand: observed discrepancies up to
@@ -87,6 +130,27 @@ NU = {'quick': {1: ([1, 3], ['first', 'above']), 2: ([3], ['first', 'above'])},
                    3: ([3], ['first'])}}
 # length-3 histories only on receivers holding both reference values
 U_HS = {1: [0, 1, 2, 3], 2: [0, 1, 2, 3], 3: [0]}
+# family D (edit histories on one live object, see run_edit): per table size
+# the T_ref placements; every applicable history of 1..DL letters, except the
+# (N, placement) pairs of DL3 which get 1..3
+ND = {'quick': {2: ['last'], 3: ['first', 'above'], 5: ['between']},
+      'thorough': dict((N, PLACEMENTS) for N in (1, 2, 3, 4, 5, 8))}
+DL3 = {'quick': [], 'thorough': [(3, 'first'), (3, 'last')]}
+# family V (update() with pieces at another T_ref, see run_merge): per history
+# length the receivers (points held of the nominal 3-point table, T_ref
+# placement), the placements of the pieces' T_ref, the receiver's references
+NV = {'quick': {1: [(0, 'first'), (1, 'first'), (3, 'first'), (3, 'above')]},
+      'thorough': {1: [(N0, pl) for N0 in (0, 1, 2, 3) for pl in PLACEMENTS],
+                   2: [(0, 'first'), (1, 'first'), (3, 'first')]}}
+VB = {'quick': {1: ['below', 'between', 'above']},
+      'thorough': {1: PLACEMENTS + ['default'], 2: ['below', 'between', 'above']}}
+V_HS = {1: [0, 1, 2, 3], 2: [0, 3]}
+
+
+def d_depth(tier, N, pl):
+    return 3 if (N, pl) in DL3[tier] else 2
+
+
 BOUND = {t: 'N in %s x 2 spacings x (polynomial degree 0..min(3,N-1) + one '
             'non-polynomial sequence with a zero and a negative value) x 6 '
             'T_ref placements x 3 ranges x %d (H_ref,S_ref) pairs x all supply '
@@ -97,7 +161,14 @@ BOUND = {t: 'N in %s x 2 spacings x (polynomial degree 0..min(3,N-1) + one '
             '+ 3 classes x %d YAML routes: spellings repr/int/%%.17e, reversed '
             'point order); family U: histories of update() on one live '
             'ThermochemIncomplete / ThermochemGroup, receiver reference values '
-            '(H,S)/(H,-)/(-,S)/(-,-): %s; 9 shipped libraries, every group'
+            '(H,S)/(H,-)/(-,S)/(-,-): %s; family D: edit histories (del_ND_Cp(T) at '
+            'index 0/1/N//2/N-1, del_ND_Cp() last, del_ND_H_ref, del_ND_S_ref, '
+            'set_range, update() with a point above / inside / a contradicting value at '
+            'the first knot) on one live ThermochemIncomplete / ThermochemGroup, all '
+            'applicable histories of 1..2 letters%s x 2 probes (evaluated only at the '
+            'end / before and after every step) on tables N: T_ref placements %s; '
+            'family V: update() with pieces stated at another T_ref: %s; '
+            '9 shipped libraries, every group'
             % (NS[t], len(HS[t]), NY[t],
                'uneq' if t == 'quick' else 'eq+uneq', len(w3.HREF), len(w3.SREF),
                len(YAML_ROUTES),
@@ -107,7 +178,17 @@ BOUND = {t: 'N in %s x 2 spacings x (polynomial degree 0..min(3,N-1) + one '
                              'full piece alphabet' if L == 1 else 'piece sub-alphabet',
                              NU[t][L][0], NU[t][L][1],
                              '' if len(U_HS[L]) == 4 else ' (receiver with H and S only)')
-                         for L in sorted(NU[t]))) for t in NS}
+                         for L in sorted(NU[t])),
+               '' if not DL3[t] else ' (1..3 on (N, T_ref) in %s)' % (DL3[t],),
+               dict((N, ND[t][N]) for N in sorted(ND[t])),
+               '; '.join('all (up to %d)^%d histories of length %d over (%d pieces x piece T_ref in %s '
+                         'other than the receiver\'s) on receivers (points held of the 3-point '
+                         'table, T_ref) in %s x reference values %s' % (
+                             len(w5.v_pieces() if L == 1 else w5.v_pieces2()) * len(VB[t][L]),
+                             L, L, len(w5.v_pieces() if L == 1 else w5.v_pieces2()),
+                             VB[t][L], NV[t][L],
+                             '(H,S)/(H,-)/(-,S)/(-,-)' if len(V_HS[L]) == 4 else '(H,S)/(-,-)')
+                         for L in sorted(NV[t]))) for t in NS}
 RULE = ('every member of the family K x every supply order x every grid '
         'temperature (range ends, T_ref, knots, inter-knot midpoints, range '
         'midpoint) is evaluated; a correlation is non-trivial when it exercises '
@@ -119,7 +200,14 @@ RULE = ('every member of the family K x every supply order x every grid '
         'family U: every history over the piece alphabet is executed on a '
         'fresh receiver and judged after every step (account of the data) and '
         'at its end (values); a history is non-trivial when a step is refused '
-        'or brings a Cp point')
+        'or brings a Cp point; family D: every applicable history (a deletion '
+        'of a point that is not held, and anything after del_ND_Cp(), is not '
+        'an edit and not enumerated) is executed on a fresh object under both '
+        'probes; non-trivial when it deletes a Cp point; family V: every '
+        'history is executed on a fresh receiver; non-trivial when a piece '
+        'that brings a reference value is accepted; histories whose agreement '
+        'hangs on the arithmetic of carrying a value (outcome merge:outside) '
+        'are not judged')
 ASSUMPTIONS = ['the interpolant between knots is whatever get_CpoR returns: '
                'the integral relations are judged against the correlation\'s '
                'own Cp (statement does not fix the interpolation order)',
@@ -139,7 +227,23 @@ ASSUMPTIONS = ['the interpolant between knots is whatever get_CpoR returns: '
                'a refused piece leaves them as they were; all pieces carry the '
                'receiver\'s T_ref and range (other T_ref: C13, range unions: '
                'C06); a reference value re-stated by an accepted piece may come '
-               'back changed in the last bits (compared to 1e-12)']
+               'back changed in the last bits (compared to 1e-12)',
+               'family D: the data of a correlation after an edit are what the '
+               'edit leaves (dictionary model); del_ND_Cp() only as a last step '
+               'and without per-temperature has_ND_Cp questions afterwards (it '
+               'leaves None for the table; what update()/copy()/has_ND_Cp(T) do '
+               'then is outside this property); with no table left only the '
+               'reference-value clause at T_ref is judged',
+               'family V: a piece states its reference values AT ITS OWN T_ref; '
+               'after an accepted merge they hold there along the MERGED table '
+               '(union of the points; the piece wins under overwrite); the '
+               'receiver keeps its T_ref; all pieces carry the receiver\'s range; '
+               'the piece values 40.0 / -55.0 contradict whatever the receiver '
+               'holds at any other temperature (bound in domains/w5_c05.py), so '
+               'without overwrite such a piece must be refused; S/R at a piece\'s '
+               'T_ref is compared to 1e-5 (carried there and back by two scipy '
+               'quad calls), H/RT to 1e-9; with no table at all nothing is '
+               'judged about a value stated at another temperature']
 MANIFEST = dict(
     technique='bounded-exhaustive enumeration of a correlation family x all '
               'supply orders vs closed-form / independent quadrature oracle',
@@ -159,6 +263,16 @@ MANIFEST = dict(
          'and contradicting Cp points and reference values) on one live object '
          'and compares its account of its data and its values with a '
          'dictionary model and with the constructor. '
+         'A fourth family edits a live object (single points deleted, the '
+         'whole table deleted, reference values deleted, range reset, points '
+         'added back) in every applicable history up to the stated length, '
+         'probed only at the end or around every step, and demands the '
+         'property for the data that are left (new end values held, same '
+         'values as a freshly constructed object and as copy()). A fifth '
+         'family merges pieces whose reference values are stated at another '
+         'reference temperature (with and without new Cp points, overwrite, '
+         'receivers with and without a table / reference values) and demands '
+         'the incoming values at the incoming T_ref along the merged table. '
          'Exhaustive inside these families.',
     note='Temperatures are grid points, not all reals; table sizes above 16 '
          'and other value shapes are not covered. YAML entries in dimensional '
@@ -243,6 +357,26 @@ def shards(tier, seed):
                                 out.append(('U', L, cls_name, N, pl, hsi, first))
                         else:
                             out.append(('U', L, cls_name, N, pl, hsi, None))
+    for cls_name in ('Incomplete', 'Group'):
+        for N in sorted(ND[tier]):
+            for pl in ND[tier][N]:
+                if tref_for(table(N, 'eq' if N == 1 else 'uneq', 'seq')[0], pl) is None:
+                    continue
+                for probe in w5.PROBES:
+                    L = d_depth(tier, N, pl)
+                    if L == 3:
+                        for first in range(len(w5.d_letters(N))):
+                            out.append(('D', cls_name, N, pl, probe, L, first))
+                    else:
+                        out.append(('D', cls_name, N, pl, probe, L, None))
+        for L in sorted(NV[tier]):
+            for N0, pla in NV[tier][L]:
+                for hsi in V_HS[L]:
+                    if L == 1:
+                        out.append(('V', L, cls_name, N0, pla, hsi, None))
+                    else:
+                        for first in VB[tier][L]:
+                            out.append(('V', L, cls_name, N0, pla, hsi, first))
     for name in libs.LIBS:
         out.append(('lib', name))
     return out
@@ -269,8 +403,11 @@ def build(cls_name, H, S, Ts, Cps, Tref, rng, order):
     return cls(H, S, dict(zip(Ts_o, Cp_o)), Tref, rng)
 
 
-def judge_correlation(k, H, S, Ts, Cps, Tref, rng, c):
-    """Checks 1-4 on one object; returns list of (check, detail)."""
+def judge_correlation(k, H, S, Ts, Cps, Tref, rng, c, ref_s_tol=1e-9):
+    """Checks 1-4 on one object; returns list of (check, detail).
+    ref_s_tol: tolerance of the S/R(T_ref) clause; family V passes STOL when
+    the reference value was carried between two temperatures by update()
+    (two scipy quad calls inside the implementation)."""
     probs = []
     lo, hi = rng if rng is not None else (Ts[0], Ts[-1])
     grid, _ = tr.temperature_grid(lo, hi, Tref, Ts)
@@ -294,7 +431,7 @@ def judge_correlation(k, H, S, Ts, Cps, Tref, rng, c):
             break
     if rel(vals[Tref][1], H) > 1e-9:
         probs.append(('ref-H', 'H/RT(T_ref=%g)=%r, reference %r' % (Tref, vals[Tref][1], H)))
-    if abs(vals[Tref][2] - S) > 1e-9 * max(1.0, abs(S)):
+    if abs(vals[Tref][2] - S) > ref_s_tol * max(1.0, abs(S)):
         probs.append(('ref-S', 'S/R(T_ref=%g)=%r, reference %r' % (Tref, vals[Tref][2], S)))
     for T in grid:
         if vals[T][3] is not None and vals[T][3] != vals[T][1] - vals[T][2]:
@@ -594,7 +731,7 @@ def run_Y(R, N, spacing, pl, tier, only=None):
                        pl == 'default', desc, wit)
 
 
-def judge_partial(k, H, S, Ts, Cps, Tref, rng):
+def judge_partial(k, H, S, Ts, Cps, Tref, rng, ref_s_tol=1e-9):
     """judge_correlation for a correlation that holds only one (or none) of
     the two reference values: knots reproduced, the held reference value
     returned at T_ref, and the integral relation of the held quantity against
@@ -621,7 +758,7 @@ def judge_partial(k, H, S, Ts, Cps, Tref, rng):
             break
     if H is not None and rel(hv[Tref], H) > 1e-9:
         probs.append(('ref-H', 'H/RT(T_ref=%g)=%r, reference %r' % (Tref, hv[Tref], H)))
-    if S is not None and abs(sv[Tref] - S) > 1e-9 * max(1.0, abs(S)):
+    if S is not None and abs(sv[Tref] - S) > ref_s_tol * max(1.0, abs(S)):
         probs.append(('ref-S', 'S/R(T_ref=%g)=%r, reference %r' % (Tref, sv[Tref], S)))
     if H is None and S is None:
         return probs, len(grid)
@@ -815,6 +952,343 @@ def run_U(R, L, cls_name, N, pl, hsi, first):
         run_history(R, cls_name, N, pl, hsi, steps)
 
 
+# ------------------------------------------------------------ families D, V
+
+def _getters(k, T, h, s):
+    out = [float(k.get_CpoR(T))]
+    if h:
+        out.append(float(k.get_HoRT(T)))
+    if s:
+        out.append(float(k.get_SoR(T)))
+    return out
+
+
+def judge_data(a, cls, Tm, Cm, h, s, Tref, rng, extra, can_copy=True):
+    """Value clauses that need no integral, for an object whose data were
+    edited / merged: `Tm, Cm` the table it holds now, `h`, `s` the reference
+    values it holds AT ITS OWN T_ref (None: not held, or not stated there).
+      listed   every point it lists in ND_Cp_data is reproduced
+      knot     every point of the model's table is reproduced
+      held     Cp/R outside the CURRENT span equals the current end value
+      ref-H/S  the reference values are returned at T_ref
+      G        G/RT = H/RT - S/R
+      differs-from-constructor / differs-from-copy  (same data, two routes)
+               equal to 1e-12 to the object the constructor makes from the
+               same data, and to its own copy(), in Cp on every knot / piece
+               temperature / range end / inter-knot midpoint and in H, S on
+               {range ends, T_ref, end knots, first midpoint}.
+    Returns [(check, detail)]."""
+    probs = []
+    T = None
+    try:
+        if not Tm:
+            if h is not None and rel(float(a.get_HoRT(Tref)), h) > 1e-9:
+                probs.append(('ref-H', 'no table left; H/RT(T_ref=%g)=%r, reference %r' % (
+                    Tref, float(a.get_HoRT(Tref)), h)))
+            if s is not None and abs(float(a.get_SoR(Tref)) - s) > 1e-9 * max(1.0, abs(s)):
+                probs.append(('ref-S', 'no table left; S/R(T_ref=%g)=%r, reference %r' % (
+                    Tref, float(a.get_SoR(Tref)), s)))
+            return probs
+        for T, v in sorted(dict(a.ND_Cp_data).items()):
+            if rel(float(a.get_CpoR(T)), float(v)) > 1e-9:
+                probs.append(('listed-point-not-reproduced', 'ND_Cp_data lists Cp/R(%g)=%r, '
+                              'get_CpoR gives %r' % (T, float(v), float(a.get_CpoR(T)))))
+                break
+        for T, v in zip(Tm, Cm):
+            if rel(float(a.get_CpoR(T)), v) > 1e-9:
+                probs.append(('knot', 'Cp/R(%g)=%r, tabulated %r' % (T, float(a.get_CpoR(T)), v)))
+                break
+        mids = [0.5 * (u + v) for u, v in zip(Tm[:-1], Tm[1:])]
+        grid = sorted(set(list(extra) + list(Tm) + mids + [rng[0], rng[1], Tref]))
+        grid = [t for t in grid if rng[0] <= t <= rng[1]]
+        sub = set([rng[0], rng[1], Tref, Tm[0], Tm[-1]] + mids[:1])
+        for T in grid:
+            cp = float(a.get_CpoR(T))
+            want = Cm[0] if T < Tm[0] else Cm[-1] if T > Tm[-1] else None
+            if want is not None and rel(cp, want) > 1e-12:
+                probs.append(('held', 'Cp/R(%g)=%r outside the tabulated span [%g, %g]; the '
+                              'end value is %r' % (T, cp, Tm[0], Tm[-1], want)))
+                break
+        if h is not None and rel(float(a.get_HoRT(Tref)), h) > 1e-9:
+            probs.append(('ref-H', 'H/RT(T_ref=%g)=%r, reference %r' % (
+                Tref, float(a.get_HoRT(Tref)), h)))
+        if s is not None and abs(float(a.get_SoR(Tref)) - s) > 1e-9 * max(1.0, abs(s)):
+            probs.append(('ref-S', 'S/R(T_ref=%g)=%r, reference %r' % (
+                Tref, float(a.get_SoR(Tref)), s)))
+        if h is not None and s is not None:
+            for T in sorted(sub):
+                g, hh, ss = float(a.get_GoRT(T)), float(a.get_HoRT(T)), float(a.get_SoR(T))
+                if g != hh - ss:
+                    probs.append(('G', 'G/RT(%g)=%r but H/RT-S/R=%r' % (T, g, hh - ss)))
+                    break
+        others = [('constructor', cls(h, s, dict(zip(Tm, Cm)), Tref, rng))]
+        if can_copy:
+            others.append(('copy', a.copy()))
+        for nm, o in others:
+            for T in grid:
+                hs = T in sub
+                va = _getters(a, T, hs and h is not None, hs and s is not None)
+                vo = _getters(o, T, hs and h is not None, hs and s is not None)
+                if any(rel(x, y) > 1e-12 for x, y in zip(va, vo)):
+                    probs.append(('differs-from-%s' % nm, '(Cp[,H][,S])(%g)=%r, %s gives %r' % (
+                        T, va, 'its copy()' if nm == 'copy' else
+                        'the constructor with the data held now %r, H_ref=%r, S_ref=%r' % (
+                            list(zip(Tm, Cm)), h, s), vo)))
+                    break
+    except Exception as e:      # noqa
+        probs.append(('exception', 'T=%r: %s: %s' % (T, type(e).__name__, e)))
+    return probs
+
+
+def apply_edit(a, cls, letter, Ts, Cps, Tref, rng_now, rng0):
+    """Perform one letter of family D on the live object; returns 'done',
+    'accepted' or 'refused' (exceptions other than the refusal propagate)."""
+    from pgradd.Error import ReadOnlyDataError
+    if letter == 'del:all':
+        a.del_ND_Cp()
+    elif letter.startswith('del:'):
+        a.del_ND_Cp(Ts[int(letter[4:])])
+    elif letter == 'delH':
+        a.del_ND_H_ref()
+    elif letter == 'delS':
+        a.del_ND_S_ref()
+    elif letter == 'range':
+        a.set_range(w5.d_range2(rng0))
+    else:
+        b = cls(None, None, dict([w5.d_point(letter, Ts, Cps)]), Tref, rng_now)
+        try:
+            a.update(b, overwrite=False)
+        except ReadOnlyDataError:
+            return 'refused'
+        return 'accepted'
+    return 'done'
+
+
+def run_edit(R, cls_name, N, pl, probe, steps):
+    """One history of family D (edits of a live correlation) on one fresh
+    object.  The witness carries the object and ALL steps."""
+    import warnings
+    from pgradd.ThermoChem import ThermochemIncomplete, ThermochemGroup
+    cls = ThermochemIncomplete if cls_name == 'Incomplete' else ThermochemGroup
+    Ts, Cps, _ = table(N, 'eq' if N == 1 else 'uneq', 'seq')
+    Tref = tref_for(Ts, pl)
+    rng0 = dict(ranges_for(Ts, Tref))['wide']
+    H0, S0 = w5.HA, w5.SA
+    cand = w5.d_candidates(Ts)
+    wit = dict(kind='D', cls=cls_name, N=N, placement=pl, probe=probe, steps=list(steps))
+    what = '%s built on table %r (T_ref=%g, range %r, H_ref=%r, S_ref=%r), %s, after %s' % (
+        cls_name, list(zip(Ts, Cps)), Tref, rng0, H0, S0,
+        'evaluated before and after every step' if probe == 'every' else
+        'not evaluated before the last step', ' ; '.join(steps))
+    model = w5.DModel(Ts, Cps, H0, S0, rng0)
+    bad = []
+    pattern = ''
+
+    def flag(key, detail):
+        bad.append(key)
+        R.violation('edit:%s:%s' % (key, cls_name), '%s: %s' % (what, detail), wit)
+    R.evals += 1
+    with warnings.catch_warnings():
+        warnings.simplefilter('ignore')
+        a = cls(H0, S0, dict(zip(Ts, Cps)), Tref, rng0)
+        if probe == 'every':
+            for chk, detail in judge_data(a, cls, Ts, Cps, H0, S0, Tref, rng0, cand)[:2]:
+                flag(chk, 'before the first step: ' + detail)
+        for n, st in enumerate(steps):
+            rng_now = model.rng
+            want = model.step(st)
+            try:
+                got = apply_edit(a, cls, st, Ts, Cps, Tref, rng_now, rng0)
+            except Exception as e:      # noqa
+                flag('raises-%s' % type(e).__name__, '%s raised %s: %s' % (
+                    st, type(e).__name__, e))
+                break
+            pattern += got[0].upper()
+            if got != want:
+                flag('%s-where-data-%s' % (got, 'agree' if want == 'accepted' else 'contradict'),
+                     '%s was %s although the data held so far %s' % (
+                         st, got, 'do not contradict it' if want == 'accepted' else 'contradict it'))
+                break
+            # (after del_ND_Cp() the object holds None for its table and
+            # has_ND_Cp(T) raises TypeError - DESIGN 10.10, outside every
+            # listed property: the per-temperature question is not asked then)
+            cand_now = [] if model.gone else cand
+            acc = account(a, cand_now)
+            for chk, detail in account_vs_model(acc, model, Tref, model.rng, cand_now)[:2]:
+                flag('%s-after-%s' % (chk, st.split(':')[0]), detail)
+            last = n == len(steps) - 1
+            if probe == 'every' or last:
+                Tm, Cm, h, s = model.data()
+                probs = judge_data(a, cls, Tm, Cm, h, s, Tref, model.rng, cand,
+                                   can_copy=not model.gone)
+                R.evals += 1
+                if last and Tm and not probs:
+                    if h is not None and s is not None:
+                        probs, vals = judge_correlation(a, h, s, Tm, Cm, Tref, model.rng, None)
+                        R.evals += len(vals)
+                    else:
+                        probs, nT = judge_partial(a, h, s, Tm, Cm, Tref, model.rng)
+                        R.evals += nT
+                for chk, detail in probs[:3]:
+                    flag(chk, 'after step %d (%s): %s' % (n + 1, st, detail))
+                if probs:
+                    break
+    if any(st.startswith('del:') for st in steps):
+        R.nontrivial += 1
+    R.outcomes['edit:%s:%s' % (pattern, 'inconsistent' if bad else 'consistent')] += 1
+    R.sample(dict(wit, Ts=Ts, Cps=Cps, T_ref=Tref, range=rng0, pattern=pattern), limit=1)
+
+
+def run_D(R, cls_name, N, pl, probe, L, first):
+    letters = w5.d_letters(N)
+    for steps in w5.d_histories(N, L):
+        if first is not None and steps[0] != letters[first]:
+            continue
+        run_edit(R, cls_name, N, pl, probe, steps)
+
+
+def v_frame(pla):
+    Ts, Cps, _ = table(3, 'uneq', 'seq')
+    Ta = tref_for(Ts, pla)
+    return Ts, Cps, Ta, dict(ranges_for(Ts, Ta))['wide']
+
+
+def v_tref(Ts, plb):
+    return w5.T_REF_DEFAULT if plb == 'default' else tref_for(Ts, plb)
+
+
+def run_merge(R, cls_name, N0, pla, hsi, steps):
+    """One history of family V (update() with pieces stated at another
+    reference temperature) on one fresh receiver.  Each step is a piece of
+    w5_c05 plus 'tref', the placement of the piece's T_ref.  The witness
+    carries the receiver and ALL steps."""
+    import warnings
+    from pgradd.ThermoChem import ThermochemIncomplete, ThermochemGroup
+    from pgradd.Error import ReadOnlyDataError
+    cls = ThermochemIncomplete if cls_name == 'Incomplete' else ThermochemGroup
+    Ts, Cps, Ta, rng = v_frame(pla)
+    H0, S0 = w5.RECV_HS[hsi]
+    cand = w5.v_candidates(Ts)
+    wit = dict(kind='V', cls=cls_name, N0=N0, placement=pla, hs=hsi, steps=list(steps))
+    what = '%s on table %r (T_ref=%g, range %r, H_ref=%r, S_ref=%r) after %s' % (
+        cls_name, list(zip(Ts[:N0], Cps[:N0])), Ta, rng, H0, S0,
+        ' ; '.join('update(piece with T_ref=%g, Cp %r, H_ref=%r, S_ref=%r; overwrite=%r)' % (
+            v_tref(Ts, st['tref']), w5.v_points(st['cp'], Ts, Cps),
+            w5.HB if st['h'] == 'B' else None, w5.SB if st['s'] == 'B' else None, st['ow'])
+            for st in steps))
+    model = w5.VModel(Ts, Cps, N0, Ta, hsi)
+    bad = []
+    pattern = ''
+    carried = False     # a piece that states a reference value was accepted
+    R.evals += 1
+
+    def flag(key, detail):
+        bad.append(key)
+        R.violation('merge:%s:%s' % (key, cls_name), '%s: %s' % (what, detail), wit)
+    with warnings.catch_warnings():
+        warnings.simplefilter('ignore')
+        a = cls(H0, S0, dict(zip(Ts[:N0], Cps[:N0])), Ta, rng)
+        twin = a.copy()
+        for st in steps:
+            Tb = v_tref(Ts, st['tref'])
+            b = cls(w5.HB if st['h'] == 'B' else None, w5.SB if st['s'] == 'B' else None,
+                    dict(w5.v_points(st['cp'], Ts, Cps)), Tb, rng)
+            before_b = account(b, cand)
+            want = model.step(st, Tb, (a.ND_H_ref, a.ND_S_ref))
+            if want == 'outside':
+                R.outcomes['merge:outside (agreement hangs on the arithmetic: not judged)'] += 1
+                return
+            try:
+                a.update(b, overwrite=st['ow'])
+                got = 'accepted'
+            except ReadOnlyDataError:
+                got = 'refused'
+            except Exception as e:      # noqa
+                flag('raises-%s' % type(e).__name__, 'update() raised %s: %s' % (
+                    type(e).__name__, e))
+                break
+            pattern += got[0].upper()
+            if got != want:
+                flag('%s-where-data-%s' % (got, 'agree' if want == 'accepted' else 'contradict'),
+                     'update() %s a piece that the data held so far %s' % (
+                         got, 'do not contradict' if want == 'accepted'
+                         else 'contradict (overwrite=False)'))
+                break
+            if got == 'accepted' and (st['h'] != 'none' or st['s'] != 'none'):
+                carried = True
+            if account(b, cand) != before_b:
+                flag('piece-changed', 'the correlation handed to update() lists %r afterwards, '
+                     '%r before' % (account(b, cand), before_b))
+            # the object's account of its data
+            acc = account(a, cand)
+            Tm, Cm, ah, as_ = model.data()
+            if acc['table'] != list(zip(Tm, Cm)) or \
+               acc['listed'] != [T for T in cand if T in model.table]:
+                flag('table-after-%s' % got, 'ND_Cp_data lists %r (has_ND_Cp true at %r), the '
+                     'data supplied (initial + accepted pieces) are %r' % (
+                         acc['table'], acc['listed'], list(zip(Tm, Cm))))
+            for nm, lst, anc in (('H_ref', acc['h'], ah), ('S_ref', acc['s'], as_)):
+                if (lst is None) != (anc is None) or (
+                        anc is not None and anc[0] == Ta and rel(lst, anc[1]) > 1e-12):
+                    flag('ref-after-%s' % got, 'ND_%s is %r, the data supplied say %s' % (
+                        nm, lst, 'nothing' if anc is None else '%r at %g K' % (anc[1], anc[0])))
+            if acc['has'] != (ah is not None, as_ is not None, bool(Tm)):
+                flag('ref-after-%s' % got, '(has_ND_H, has_ND_S, has_ND_Cp) = %r, the data '
+                     'supplied say %r' % (acc['has'], (ah is not None, as_ is not None, bool(Tm))))
+            if acc['tref'] != Ta or acc['range'] != tuple(rng):
+                flag('frame-after-%s' % got, '(T_ref, range) = %r; the receiver had %r and '
+                     'every piece the same range' % ((acc['tref'], acc['range']), (Ta, tuple(rng))))
+        else:
+            Tm, Cm, ah, as_ = model.data()
+            own = [None if x is None or x[0] != Ta else x[1] for x in (ah, as_)]
+            probs = judge_data(a, cls, Tm, Cm, own[0], own[1], Ta, rng,
+                               cand + [v_tref(Ts, st['tref']) for st in steps])
+            if Tm and not probs:
+                # the integral relations, anchored where the data state the
+                # reference values
+                if ah is not None and as_ is not None and ah[0] == as_[0]:
+                    jobs = [(ah[1], as_[1], ah[0])]
+                else:
+                    jobs = [(x[1] if q == 'h' else None, x[1] if q == 's' else None, x[0])
+                            for q, x in (('h', ah), ('s', as_)) if x is not None]
+                for jh, js, jT in jobs:
+                    tol = 1e-9 if jT == Ta else STOL
+                    if jh is not None and js is not None:
+                        pr, vals = judge_correlation(a, jh, js, Tm, Cm, jT, rng, None,
+                                                     ref_s_tol=tol)
+                        R.evals += len(vals)
+                    else:
+                        pr, nT = judge_partial(a, jh, js, Tm, Cm, jT, rng, ref_s_tol=tol)
+                        R.evals += nT
+                    probs.extend(pr)
+            for chk, detail in probs[:3]:
+                flag(chk, detail)
+            t_acc = account(twin, cand)
+            if (t_acc['table'], t_acc['h'], t_acc['s']) != (
+                    list(zip(Ts[:N0], Cps[:N0])), H0, S0):
+                flag('copy-changed', 'a copy() taken before the history now lists %r' % (t_acc,))
+    if carried:
+        R.nontrivial += 1
+    R.outcomes['merge:%s:%s' % (pattern, 'inconsistent' if bad else 'consistent')] += 1
+    R.sample(dict(wit, Ts=Ts, Cps=Cps, T_ref=Ta, range=rng, pattern=pattern), limit=1)
+
+
+def v_steps(L, pla, plbs, first=None):
+    """All histories of length L: every step a piece x a placement of the
+    piece's T_ref other than the receiver's."""
+    Ts = table(3, 'uneq', 'seq')[0]
+    Ta = tref_for(Ts, pla)
+    alphabet = w5.v_pieces() if L == 1 else w5.v_pieces2()
+    letters = [dict(p, tref=plb) for plb in plbs if v_tref(Ts, plb) != Ta for p in alphabet]
+    heads = letters if first is None else [x for x in letters if x['tref'] == first]
+    return itertools.product(heads, *([letters] * (L - 1)))
+
+
+def run_V(R, L, cls_name, N0, pla, hsi, first, tier):
+    for steps in v_steps(L, pla, VB[tier][L], first):
+        run_merge(R, cls_name, N0, pla, hsi, list(steps))
+
+
 def run_lib(R, name, only=None):
     lib = libs.load(name)
     for g in sorted(lib.contents, key=str):
@@ -850,6 +1324,10 @@ def run_shard(shard, tier):
         run_Y(R, shard[1], shard[2], shard[3], tier)
     elif shard[0] == 'U':
         run_U(R, *shard[1:])
+    elif shard[0] == 'D':
+        run_D(R, *shard[1:])
+    elif shard[0] == 'V':
+        run_V(R, *(tuple(shard[1:]) + (tier,)))
     else:
         run_lib(R, shard[1])
     return R
@@ -866,6 +1344,10 @@ def replay(w):
         run_Y(R, d['N'], d['spacing'], d['placement'], 'thorough', only=d)
     elif w['kind'] == 'U':
         run_history(R, w['cls'], w['N'], w['placement'], w['hs'], w['steps'])
+    elif w['kind'] == 'D':
+        run_edit(R, w['cls'], w['N'], w['placement'], w['probe'], w['steps'])
+    elif w['kind'] == 'V':
+        run_merge(R, w['cls'], w['N0'], w['placement'], w['hs'], w['steps'])
     else:
         run_lib(R, w['lib'], only=w['group'])
     return dict(violates=bool(R.violations),
